@@ -1,6 +1,6 @@
 (* C09 — --verify accepts exactly the chains whose merkle roots and prev-hash links hold. Pinned statements only: each theorem is closed by `exact` of a lemma proved in theories/. *)
-From RBP Require Import Bytes Hashes Wire Block BlockP Render Index IndexP Model ModelP StoreP CsvP CbP FrameP VerifyFrame.
-From RBP Require Drive Merkle Utxo Stats OutProto Reader Published Misc.
+From RBP Require Import Bytes Hashes Wire Block BlockP Render Index IndexP Model ModelP StoreP CsvP CbP FrameP VerifyFrame VerifyBind.
+From RBP Require MerkleP Drive Merkle Utxo Stats OutProto Reader Published Misc.
 
 Theorem C09_merkle_loop_is_spec :
   forall l : list bytes, l <> [] -> exists r : bytes, Merkle.merkle_root H2 l = Ok r /\ Merkle.merkle_spec H2 (S (length l)) l = Some r.
@@ -58,6 +58,30 @@ Theorem C09_verdict_ignores_stored_size :
   forall (c : coin) (idx : hmap) (b : eblock) (h sz : N), verify_block c idx (with_size b sz) h = verify_block c idx b h.
 Proof. exact verify_ignores_stored_size. Qed.
 
+Theorem C09_accepted_bodies_collide :
+  forall (c : coin) (idx : hmap) (b b' : eblock) (h : N), b_header (y_blk b) = b_header (y_blk b') -> length (y_txs b) = length (y_txs b') -> map x_id (y_txs b) <> map x_id (y_txs b') -> verify_block c idx b h = None -> verify_block c idx b' h = None -> MerkleP.collision H2.
+Proof. exact accepted_bodies_collide. Qed.
+
+Theorem C09_accepted_body_unique_without_collision :
+  forall (c : coin) (idx : hmap) (b b' : eblock) (h : N), ~ MerkleP.collision H2 -> b_header (y_blk b) = b_header (y_blk b') -> length (y_txs b) = length (y_txs b') -> verify_block c idx b h = None -> verify_block c idx b' h = None -> map x_id (y_txs b) = map x_id (y_txs b').
+Proof. exact accepted_body_unique. Qed.
+
+Theorem C09_mutated_body_accepted :
+  forall (c : coin) (idx : hmap) (b b' : eblock) (h : N) (l : list bytes) (x : bytes), l <> [] -> Nat.odd (length l) = false -> map x_id (y_txs b) = l ++ [x] -> map x_id (y_txs b') = l ++ [x; x] -> b_header (y_blk b) = b_header (y_blk b') -> y_hash b = y_hash b' -> verify_block c idx b' h = verify_block c idx b h.
+Proof. exact mutated_body_accepted. Qed.
+
+Theorem C09_merkle_collision_extraction :
+  forall (H2 : bytes -> bytes -> bytes) (l l' : list bytes) (r : bytes), length l = length l' -> l <> l' -> Merkle.merkle_root H2 l = Ok r -> Merkle.merkle_root H2 l' = Ok r -> MerkleP.collision H2.
+Proof. exact MerkleP.merkle_root_collision. Qed.
+
+Theorem C09_merkle_dup_tail :
+  forall (H2 : bytes -> bytes -> bytes) (l : list bytes) (x : bytes), l <> [] -> Nat.odd (length l) = false -> forall f : nat, Merkle.merkle_spec H2 (S f) (l ++ [x]) = Merkle.merkle_spec H2 (S f) (l ++ [x; x]).
+Proof. exact MerkleP.merkle_dup_tail_same_root. Qed.
+
+Theorem C09_merkle_small_three :
+  forall (H2 : bytes -> bytes -> bytes) (a b c : bytes), Merkle.merkle_root H2 [a; b; c] = Ok (H2 (H2 a b) (H2 c c)).
+Proof. exact MerkleP.merkle_three. Qed.
+
 Print Assumptions C09_merkle_loop_is_spec.
 Print Assumptions C09_verify_iff.
 Print Assumptions C09_merkle_checked_first.
@@ -72,3 +96,9 @@ Print Assumptions C09_witness_not_covered.
 Print Assumptions C09_witness_frame.
 Print Assumptions C09_verdict_depends_on_txids_header_hash_only.
 Print Assumptions C09_verdict_ignores_stored_size.
+Print Assumptions C09_accepted_bodies_collide.
+Print Assumptions C09_accepted_body_unique_without_collision.
+Print Assumptions C09_mutated_body_accepted.
+Print Assumptions C09_merkle_collision_extraction.
+Print Assumptions C09_merkle_dup_tail.
+Print Assumptions C09_merkle_small_three.
